@@ -168,10 +168,10 @@ class Fn:
 class Pair:
     """host (a-side or b-side as chosen per send) and equipment joined by a World"""
 
-    def __init__(self, rng, chunks, pumped, jitter, t3=45):
+    def __init__(self, rng, chunks, pumped, jitter, t3=45, t4=10):
         self.world = World(rng, chunks, pumped, jitter)
-        self.host = SecsIProtocol(S(port="H", device_type=secsgem.common.DeviceType.HOST, device_id=rng.choice([0, 1, 32767]), t3=t3))
-        self.equip = SecsIProtocol(S(port="E", device_type=secsgem.common.DeviceType.EQUIPMENT, device_id=rng.choice([0, 5, 32767]), t3=t3))
+        self.host = SecsIProtocol(S(port="H", device_type=secsgem.common.DeviceType.HOST, device_id=rng.choice([0, 1, 32767]), t3=t3, t4=t4))
+        self.equip = SecsIProtocol(S(port="E", device_type=secsgem.common.DeviceType.EQUIPMENT, device_id=rng.choice([0, 5, 32767]), t3=t3, t4=t4))
         self.ch, self.ce = self.host._connection, self.equip._connection
         self.ch.peer, self.ce.peer = self.ce, self.ch
         self.ch.world = self.ce.world = self.world
@@ -237,6 +237,10 @@ def run_case(cx, case):
         if len(blocks) != want_blocks:
             res.violate("c17-message-blocks", f"a message with a {len(body)}-byte body is cut into {len(blocks)} blocks (E4: {want_blocks}; a header-only "
                         "message is ONE block with no data)", dict(case, blocks=len(blocks)), want_blocks, len(blocks))
+        flip = case.get("fault_flip")
+        if fault is None and flip is not None and flip[0] < len(encs) and flip[1] < len(encs[flip[0]]):
+            fault = (flip[0], flip[1], encs[flip[0]][flip[1]] ^ (1 << flip[2]))  # exactly one bit of that byte
+            case = dict(case, fault=fault)
         if fault is not None and fault[0] >= len(encs):
             fault = None  # nothing to corrupt: the block does not exist
             case = dict(case, fault=None)
@@ -610,6 +614,49 @@ def run_concurrent_fault(cx, case):
         pair.close()
 
 
+def run_block_gap(cx, case):
+    """a multi-block message whose blocks are separated by more than T4 on the line (the peer's ACK of block k is held back, so the sender
+    offers block k+1 late).  The code implements no T4 give-up: every block is ACKed and the send reports success - so the message must
+    arrive exactly once, intact (not a truncated tail)."""
+    res, rng = cx.res, cx.rng
+    pair = Pair(rng.fork("gap"), case["chunks"], False, 0, t3=45, t4=case["t4"])
+    try:
+        direction = case["dir"]
+        sender, skey, rkey = (pair.host, "H", "E") if direction == "H2E" else (pair.equip, "E", "H")
+        a_end = pair.ch if direction == "H2E" else pair.ce
+        a_end.name, a_end.peer.name = "a", "b"
+        body = hlib.Rng(case["body_seed"]).bytes(case["body_len"])
+        fn = Fn(case["stream"], case["function"], False, body)
+        sender._system_counter = case["system"] - 1
+        # b's transmissions: EOT, ACK per block -> the ACK of block k (0-based) is transmission 2k + 1
+        pair.world.hold_b = {2 * k + 1: case["gap"] for k in case["after_blocks"]}
+        out = {}
+        t = threading.Thread(target=lambda: out.update(r=sender.send_stream_function(fn)), daemon=True)
+        t.start()
+        t.join(6.0 + case["gap"] * len(case["after_blocks"]))
+        time.sleep(0.2)
+        got = list(pair.got[rkey])
+        with pair.world.lock:
+            transcript = list(pair.world.transcript)
+        acks = sum(1 for (n, d) in transcript if n == "b" and d == bytes([ACK]))
+        r = "blocked" if t.is_alive() else out.get("r")
+        small = dict(case, returned=repr(r), acked_blocks=acks, delivered=[(m.header.function, len(m.data), len(m.blocks)) for m in got])
+        res.count(("block-gap", direction, case["body_len"], tuple(case["after_blocks"]), case["t4"]), sample=small if case.get("sample") else None)
+        res.bump("gap_longer_than_T4_between_blocks", f"{max(1, -(-case['body_len'] // 244))} blocks, gap after {case['after_blocks']} -> {r}")
+        if r == "blocked":
+            res.violate("c17-wedged", "the send call did not return", small)
+        elif r is True:
+            if len(got) != 1 or bytes(got[0].data) != body:
+                res.violate("c17-not-delivered-intact", f"a gap of {case['gap']} s (> T4 = {case['t4']} s) between two blocks: every block was ACKed and the send "
+                            "reported success, but the message did not arrive exactly once, intact", small, {"len": len(body)},
+                            [(m.header.function, len(m.data)) for m in got])
+            check_role_header(res, small, got, direction, sender)
+        elif got:
+            res.violate("c17-bad-delivered", "the send reported failure but a message was delivered", small)
+    finally:
+        pair.close()
+
+
 def run_same_system(cx, case):
     """consecutive messages in ONE direction with EQUAL system bytes (the peer re-uses the system bytes of a closed transaction; with
     `send_response` the caller chooses them).  Oracle: every message whose send returned True is delivered exactly once, intact, in order."""
@@ -787,6 +834,8 @@ def main():
             elif isinstance(c, dict) and c.get("part") == "concurrent-fault":
                 for _ in range(5):
                     guarded(cx, run_concurrent_fault, {k: v for k, v in c.items() if k not in ("damaged_function", "results", "accepted", "delivered")})
+            elif isinstance(c, dict) and c.get("part") == "block-gap":
+                guarded(cx, run_block_gap, {k: v for k, v in c.items() if k not in ("returned", "acked_blocks", "delivered")})
             elif isinstance(c, dict) and c.get("part") == "same-system":
                 guarded(cx, run_same_system, {k: v for k, v in c.items() if k not in ("results", "delivered")})
             elif isinstance(c, dict) and c.get("part") == "preempted-resolve":
@@ -819,6 +868,18 @@ def main():
                     guarded(cx, run_case, c)
                     n_exh += 1
         res.exhaustive_parts.append(f"one byte replaced at every offset of a 13-byte and a 16-byte block ({n_exh} transfers)")
+        # every BIT of every header byte, for odd and even functions, W-bit set and unset
+        n_bits = 0
+        for function in (1, 2):
+            for w in (False, True):
+                for pos in range(1, 11):
+                    for bit in range(8):
+                        c = gen_case(rng, 0, direction=rng.choice(["H2E", "E2H"]))
+                        c.update(function=function, w=w, stream=rng.choice([1, 6, 127]), fault=None, fault_flip=(0, pos, bit), chunks=[1000], pumped=False,
+                                 jitter=0, watchdog=3.0)
+                        guarded(cx, run_case, c)
+                        n_bits += 1
+        res.exhaustive_parts.append(f"every single bit of the 10 header bytes flipped, function odd/even x W-bit set/unset ({n_bits} transfers)")
         # sampled corruption in larger / multi-block messages
         for _ in range(120 if cx.big else 30):
             n = rng.choice([1, 243, 244, 245, 488, 489, 600])
@@ -864,6 +925,11 @@ def main():
                  "system": rng.choice([7, 0, 2 ** 32 - 1, rng.range(1, 2 ** 32 - 1)]), "chunks": rng.choice([[1000], [3], [100, 1, 1, 1]]),
                  "pumped": bool(rng.below(2)), "sample": k == 0}
             guarded(cx, run_same_system, c)
+        # a gap longer than T4 between two blocks of one message
+        for k, (n, after) in enumerate([(300, [0]), (600, [1]), (600, [0, 1])] + ([(733, [2]), (489, [0])] if cx.big else [])):
+            c = {"part": "block-gap", "dir": rng.choice(["H2E", "E2H"]), "body_len": n, "body_seed": rng.below(2 ** 31), "stream": 7, "function": 3,
+                 "system": rng.range(1, 2 ** 32 - 1), "chunks": rng.choice([[1000], [50]]), "t4": 0.2, "gap": 0.5, "after_blocks": after, "sample": k == 0}
+            guarded(cx, run_block_gap, c)
         # the thread resolving the send result is preempted right after it signalled the event
         for k, fault in enumerate([True, False, True]):
             c = gen_case(rng, rng.choice([0, 0, 7]))
